@@ -24,7 +24,7 @@ ASSUMPTIONS = [
 XCELLS = [None, 1, 2, 2.5, NAN(1), 'a', 'ab']          # NAN(1): one NaN object per *cell* (fresh ids per row below)
 VALS = [None, 1, 2, 2.5, 'a', 'ab', 3]                # 3 matches nothing
 REGEX = ['a', '^a$', 'zzz', 'b$']
-FUNCS = ['x_is_none', 'y_even', 'true', 'false', 'x_str', 'xy', 'y_mod2', 'x_itself', 'y_or_none', 'x_len', 'kwonly', 'kwonly_nodefault', 'partial']
+FUNCS = ['x_is_none', 'y_even', 'true', 'false', 'x_str', 'xy', 'y_mod2', 'x_itself', 'y_or_none', 'x_len', 'kwonly', 'kwonly_nodefault', 'partial', 'wrapped_try', 'wrapped_ks']
 
 
 def _kwonly(x, *, y=-5):
@@ -56,6 +56,9 @@ def _funcs():
         'kwonly': (_kwonly, lambda r: r['x'] is not None and r['y'] >= 1),
         'kwonly_nodefault': (_kwonly2, lambda r: r['y'] in (0, 3) and r['z'] == 'k'),
         'partial': (__import__('functools').partial(_three, q=1), lambda r: r['y'] >= 1 and r['x'] is None),
+        # a predicate wrapped by one of the library's own decorators is a callable like any other (the wrapper objects happen to be dict subclasses)
+        'wrapped_try': (__import__('pyg_base').try_false(lambda x: len(x) == 1), lambda r: isinstance(r['x'], str) and len(r['x']) == 1),
+        'wrapped_ks': (__import__('pyg_base').kwargs_support(lambda y: y >= 1), lambda r: r['y'] >= 1),
     }
 
 
@@ -383,6 +386,22 @@ def check_extras(case):
         out.cls('some' if iy and ey else 'one-sided')
         if iy and ey:
             out.nontrivial(ci)
+    # ---- int cells beyond the float mantissa against a float condition value: membership is exact (2**53 + 1 != 2.0**53)
+    if n:
+        big = [[2 ** 53, 2 ** 53 + 1, 1, None, 2.0 ** 53, 'a'][i] for i in case['x']]
+        for ci, (val, vname) in enumerate(((2.0 ** 53, '2.0**53'), ([2.0 ** 53], '[2.0**53]'), ([1, 2.0 ** 53], '[1, 2.0**53]'), (2 ** 53 + 1, '2**53+1'), ([2 ** 53 + 1], '[2**53+1]'))):
+            out.sub()
+            d = dictable(x=list(big), y=list(range(n)))
+            vals = val if isinstance(val, list) else [val]
+            want = [i for i in range(n) if big[i] is not None and not isinstance(big[i], str) and any(big[i] == u for u in vals)]
+            try:
+                iy, ey = list(d.inc(x=val)['y']), list(d.exc(x=val)['y'])
+                out.call(2)
+            except Exception as e:
+                out.viol('inc-raised', 'inc / exc(x=%s) on x=%s raised %s: %s' % (vname, big, type(e).__name__, e), cond='bigint', suite='extras')
+                continue
+            if iy != want or ey != [i for i in range(n) if i not in want]:
+                out.viol('wrong-rows', 'inc(x=%s) on x=%s: inc.y=%s exc.y=%s, expected inc.y=%s (ints are compared exactly: 2**53+1 != 2.0**53)' % (vname, big, iy, ey, want), op='inc', bigint=True)
     # ---- underscored column names
     if n:
         out.sub()
